@@ -112,30 +112,36 @@ def build(layout):
     abytes = (textref.encode(analysis, d, leading=layout.get('analysis_leading', True))
               .encode('latin-1') if analysis else b'')
 
+    order = layout.get('seg_order')
+    if order is None:
+        order = ['text'] + (['stext'] if layout.get('stext_pos', 'after') == 'before' else []) + ['data'] + \
+                (['stext'] if layout.get('stext_pos', 'after') == 'after' else []) + ['analysis']
+    assert sorted(set(order) | {'stext', 'analysis'}) == ['analysis', 'data', 'stext', 'text'] and len(set(order)) == len(order)
     pos = 58 + pad
-    text_begin = pos
-    text_end = pos + tlen - 1
-    pos = text_end + 1 + pad
     segs = []
+    text_begin = text_end = None
     stext_begin = stext_end = 0
-    if sbytes and layout.get('stext_pos', 'after') == 'before':
-        stext_begin, stext_end = pos, pos + len(sbytes) - 1
-        segs.append((pos, sbytes))
-        pos = stext_end + 1 + pad
-    data_begin = pos
-    data_end_true = pos + len(data) - 1
-    data_end = data_end_true + (1 if onepast else 0)
-    segs.append((pos, data))
-    pos = data_end_true + 1 + pad
-    if sbytes and layout.get('stext_pos', 'after') == 'after':
-        stext_begin, stext_end = pos, pos + len(sbytes) - 1
-        segs.append((pos, sbytes))
-        pos = stext_end + 1 + pad
     an_begin = an_end = 0
-    if abytes:
-        an_begin, an_end = pos, pos + len(abytes) - 1
-        segs.append((pos, abytes))
-        pos = an_end + 1
+    for seg in order:
+        if seg == 'text':
+            text_begin = pos
+            text_end = pos + tlen - 1
+            segs.append((pos, None))
+            pos = text_end + 1 + pad
+        elif seg == 'stext' and sbytes:
+            stext_begin, stext_end = pos, pos + len(sbytes) - 1
+            segs.append((pos, sbytes))
+            pos = stext_end + 1 + pad
+        elif seg == 'data':
+            data_begin = pos
+            data_end_true = pos + len(data) - 1
+            data_end = data_end_true + (1 if onepast else 0)
+            segs.append((pos, data))
+            pos = data_end_true + 1 + pad
+        elif seg == 'analysis' and abytes:
+            an_begin, an_end = pos, pos + len(abytes) - 1
+            segs.append((pos, abytes))
+            pos = an_end + 1 + (pad if seg != order[-1] else 0)
     vals = {}
     if v3:
         vals['$BEGINSTEXT'], vals['$ENDSTEXT'] = _num(stext_begin, W), _num(stext_end, W)
@@ -162,10 +168,9 @@ def build(layout):
         header += b' ' * 16 if layout.get('analysis_blank', True) else b'%8d%8d' % (0, 0)
     assert len(header) == 58
     out = bytearray(header)
-    out += b' ' * pad
-    assert len(out) == text_begin
-    out += tbytes
     for p, b in segs:
+        if b is None:
+            b = tbytes
         if len(out) < p:
             out += b' ' * (p - len(out))
         assert len(out) == p, (len(out), p)
